@@ -374,8 +374,9 @@ class Interp:
         ref = self.fresh()
         got = self.collect(self.prob)
         for n, v in ref.items():
+            # L_equals_W = (W - L) / W is a difference of O(1) terms: judged against 1, not against itself
             out.close("path/" + n.split(":")[1].split(".")[-1], got[n], v, rtol=self.tol,
-                      atol=self.tol * 1e-3 * (1.0 + float(np.max(np.abs(v)))))
+                      atol=self.tol if n.endswith("L_equals_W") else self.tol * 1e-3 * (1.0 + float(np.max(np.abs(v)))))
 
     def nontrivial(self, hist):
         # every operation ends with a judged analysis: non-trivial = an analysis after a solver change, a state
